@@ -14,6 +14,7 @@ import (
 	"encoding/hex"
 	"encoding/json"
 	"fmt"
+	"math/big"
 	"os"
 	"os/exec"
 	"reflect"
@@ -55,6 +56,18 @@ type Job struct {
 	Procs [][]Call `json:"procs"`
 	Order []int    `json:"order"`
 	Reps  int      `json:"reps"`
+	// Shared: every goroutine encodes the SAME message values (built once before the goroutines start): encoding reads its input
+	Shared bool `json:"shared"`
+}
+
+// sharedMsgs: the message values shared by all goroutines of a job with Shared set (read-only after TestChild has filled it)
+var sharedMsgs map[string]any
+
+func msgFor(kind string, v int) any {
+	if m, ok := sharedMsgs[fmt.Sprintf("%s/%d", kind, v)]; ok {
+		return m
+	}
+	return buildMsg(kind, v)
 }
 
 type Result struct {
@@ -105,6 +118,16 @@ func buildMsg(kind string, v int) any {
 				Object: &kmip.SymmetricKey{KeyBlock: kmip.KeyBlock{KeyFormatType: kmip.KeyFormatTypeRaw,
 					KeyValue:               &kmip.KeyValue{Plain: &kmip.PlainKeyValue{KeyMaterial: kmip.KeyMaterial{Bytes: &[]byte{1, 2, 3, 4, 5, 6, 7, 8}}, Attribute: attrs}},
 					CryptographicAlgorithm: kmip.CryptographicAlgorithmAES, CryptographicLength: 64}}}}}}
+	case "RespGetBig":
+		// big integers of both signs, as members of a structure and as the value of a custom attribute
+		neg := new(big.Int).Neg(new(big.Int).Lsh(big.NewInt(0x1234567), 70))
+		return &kmip.ResponseMessage{Header: sh, BatchItem: []kmip.ResponseBatchItem{{Operation: kmip.OperationGet,
+			ResponsePayload: &payloads.GetResponsePayload{ObjectType: kmip.ObjectTypePublicKey, UniqueIdentifier: "id",
+				Object: &kmip.PublicKey{KeyBlock: kmip.KeyBlock{KeyFormatType: kmip.KeyFormatTypeTransparentRSAPublicKey,
+					KeyValue: &kmip.KeyValue{Plain: &kmip.PlainKeyValue{KeyMaterial: kmip.KeyMaterial{TransparentRSAPublicKey: &kmip.TransparentRSAPublicKey{
+						Modulus: *new(big.Int).Neg(new(big.Int).Lsh(big.NewInt(0x7654321), 90)), PublicExponent: *big.NewInt(-65537)}},
+						Attribute: []kmip.Attribute{{AttributeName: "x-big", AttributeValue: neg}, {AttributeName: "x-big2", AttributeValue: big.NewInt(-1)}}}},
+					CryptographicAlgorithm: kmip.CryptographicAlgorithmRSA, CryptographicLength: 2048}}}}}}
 	case "RespGetSecret":
 		// the same payload structure as RespGet carrying another concrete object type: plans are per structure, the value varies
 		return &kmip.ResponseMessage{Header: sh, BatchItem: []kmip.ResponseBatchItem{{Operation: kmip.OperationGet,
@@ -194,7 +217,7 @@ func execCall(c Call, reused map[string]*ttlv.Encoder) (digest string, doc []byt
 		if c.Reuse && c.NoClear {
 			off = len(e.Bytes())
 		}
-		e.Any(buildMsg(c.Msg, c.Ver))
+		e.Any(msgFor(c.Msg, c.Ver))
 		doc = append([]byte(nil), e.Bytes()[off:]...)
 		h := sha256.Sum256(doc)
 		return hex.EncodeToString(h[:8]), doc, nil
@@ -257,6 +280,16 @@ func TestChild(t *testing.T) {
 	var job Job
 	if err := json.Unmarshal(b, &job); err != nil {
 		t.Fatal(err)
+	}
+	if job.Shared {
+		sharedMsgs = map[string]any{}
+		for _, calls := range job.Procs {
+			for _, c := range calls {
+				if k := fmt.Sprintf("%s/%d", c.Msg, c.Ver); c.Op == "enc" && sharedMsgs[k] == nil {
+					sharedMsgs[k] = buildMsg(c.Msg, c.Ver)
+				}
+			}
+		}
 	}
 	var results []Result
 	var events []map[string]any
